@@ -102,7 +102,16 @@ def case(draw):
     rounds = []
     for i in range(draw(st.integers(1, 3))):
         o = draw(updgen.update_opts(state))
-        ed = draw(updgen.edits(state)) if i > 0 or draw(st.booleans()) else []
+        ed = draw(updgen.edits(state, retype=True)) \
+            if i > 0 or draw(st.booleans()) else []
+        # a file that became a directory: sometimes exactly that new
+        # directory is what gets updated
+        newdirs = [op['p'] for op in ed
+                   if op['op'] == 'retype' and op.get('to') == 'dir'
+                   and not treegen.is_hidden(op['p'])]
+        if newdirs and state['mode'] != 'none' and draw(st.booleans()):
+            o['target'] = draw(st.sampled_from(newdirs))
+            o.pop('target_slash', None)
         rounds.append({'edits': ed, 'opts': o})
     return {'state': state, 'rounds': rounds,
             'scandir': draw(st.sampled_from([None, 'sorted', 'reversed',
